@@ -77,6 +77,9 @@ class Denoter:
 
     def d(self, t: Term) -> Mono:
         h = t[0]
+        if h == "attr" and t[2] == "numerator" and isinstance(t[1], tuple) and t[1] and t[1][0] in ("op", "meth", "call", "rec", "new"):
+            # the numerator of a COMPUTED fraction q (only a Fraction has one):  q = q.numerator / q.denominator,  so  q.numerator = q · q.denominator
+            return self.d(t[1]).mul(atom(("attr", t[1], "denominator")))
         if h in ("var", "attr", "index"):
             return self.expand_atom(t)
         if h == "op" and t[1] == "*":
